@@ -435,6 +435,8 @@ func runC18(c *Ctx) {
 	c18SubValidators(c, cfgPkg)
 	c18RequiredFieldGuards(c, cfgPkg)
 	c18SameParser(c, cfgPkg)
+	c18NoEarlySuccess(c)
+	c18PositiveLimits(c)
 	c18MustNonNil(c)
 	c18CacheAfterCheck(c)
 	// validated pattern fields are not extended with unvalidated text afterwards:
@@ -1465,4 +1467,153 @@ func c18SameParser(c *Ctx, cfgPkg *packages.Package) {
 			"the error of "+u.fn+"("+u.v.Name()+") is dropped here, but validate() accepted the value with ["+strings.Join(have, ", ")+"]: a value that only the validating parser understands (`1d` for a Prometheus duration) fails here unnoticed and the zero value reaches the check")
 	}
 	c.Check(n >= 4, "C18-R1", "dropped-error parses of validated config fields enumerated", token.NoPos, itoa(n), "fewer than confirmed ("+itoa(n)+")")
+}
+
+// c18NoEarlySuccess: a validate() method says "accepted" in one place only, at
+// its end. Every other return hands back an error that is known to be there:
+// the result of a call (errors.New, fmt.Errorf, …) or an error variable under
+// `err != nil`. A `return err` right after a successful check, or a `return
+// nil` half way down, accepts the value before the remaining attributes were
+// looked at — and those are exactly the ones later code parses with the error
+// dropped.
+func c18NoEarlySuccess(c *Ctx) {
+	R := "C18-R3"
+	n := 0
+	for _, fi := range c.P.AllFuncs() {
+		if fi.Decl.Body == nil || c.P.IsTestFile(fi.Decl.Pos()) {
+			continue
+		}
+		rel := relPkg(fi.Pkg.PkgPath)
+		if rel != "internal/config" && rel != "internal/checks" {
+			continue
+		}
+		if nm := fi.Obj.Name(); nm != "validate" && nm != "Validate" {
+			continue
+		}
+		sig := fi.Obj.Type().(*types.Signature)
+		if sig.Results().Len() != 1 || sig.Results().At(0).Type().String() != "error" {
+			continue
+		}
+		info := fi.Pkg.TypesInfo
+		pm := parentMap(fi.Decl.Body)
+		var last ast.Stmt
+		if l := fi.Decl.Body.List; len(l) > 0 {
+			last = l[len(l)-1]
+		}
+		n++
+		bad := ""
+		inspectNoLit(fi.Decl.Body, func(nd ast.Node) bool {
+			r, ok := nd.(*ast.ReturnStmt)
+			if !ok || ast.Stmt(r) == last {
+				return true
+			}
+			if len(r.Results) == 0 {
+				// named result: the function's error variable must be known non-nil here
+				if sig.Results().At(0).Name() != "" {
+					o := sig.Results().At(0)
+					for _, g := range lexicalGuards(pm, r, fi.Decl.Body) {
+						if x, isNil, ok := nilAtom(info, g); ok && !isNil && objOf(info, x) == types.Object(o) {
+							return true
+						}
+					}
+				}
+				bad = "bare return at " + c.P.Pos(r.Pos())
+				return true
+			}
+			e := ast.Unparen(r.Results[0])
+			switch x := e.(type) {
+			case *ast.CallExpr:
+				// a constructor of errors; a call of another validate() may hand back nil
+				if fn := Callee(info, x); fn != nil && (fn.Name() == "validate" || fn.Name() == "Validate") {
+					bad = "`return " + exprStr(e) + "` at " + c.P.Pos(r.Pos())
+				}
+				return true
+			case *ast.Ident:
+				if isNilIdent(info, x) {
+					bad = "`return nil` at " + c.P.Pos(r.Pos())
+					return true
+				}
+				o := info.Uses[x]
+				for _, g := range lexicalGuards(pm, r, fi.Decl.Body) {
+					if gx, isNil, ok := nilAtom(info, g); ok && !isNil && objOf(info, gx) == o {
+						return true
+					}
+				}
+				bad = "`return " + x.Name + "` at " + c.P.Pos(r.Pos()) + " (not under `" + x.Name + " != nil`)"
+			}
+			return true
+		})
+		c.Check(bad == "", R, shortFuncName(fi.Name)+":accepts only at its end", fi.Decl.Pos(), "every earlier return carries an error",
+			bad+" can accept the value before the attributes checked further down were looked at: an invalid pattern, duration or template there is then parsed later with its error dropped (nil regexp, zero duration) and crashes the lint run")
+	}
+	c.Check(n >= 25, R, "validate() methods enumerated", token.NoPos, itoa(n), "fewer validate() methods than confirmed ("+itoa(n)+")")
+}
+
+func shortFuncName(q string) string {
+	if i := strings.LastIndex(q, "/"); i >= 0 {
+		return q[i+1:]
+	}
+	return q
+}
+
+// c18PositiveLimits: the two numbers of a prometheus{} block that size things
+// at run time — `concurrency` (worker count, channel capacity) and `rateLimit`
+// (divisor of the rate limiter) — never reach the server objects as zero or
+// negative: applyDefaults replaces every value `<= 0` (not just the zero value),
+// or validate() rejects it. `make(chan T, n)` with a negative n and
+// ratelimit.New(0) both panic when the workers are started, long after Load().
+func c18PositiveLimits(c *Ctx) {
+	R := "C18-R3"
+	ad := c.MustFunc(R, "internal/config.PrometheusConfig.applyDefaults")
+	if ad == nil {
+		return
+	}
+	val := c.P.Func("internal/config.PrometheusConfig.validate")
+	for _, field := range []string{"Concurrency", "RateLimit"} {
+		covered := ""
+		for _, fi := range []*FuncInfo{ad, val} {
+			if fi == nil || fi.Decl.Body == nil {
+				continue
+			}
+			info := fi.Pkg.TypesInfo
+			pm := parentMap(fi.Decl.Body)
+			nonPositive := func(n ast.Node) bool {
+				for _, g := range lexicalGuards(pm, n, fi.Decl.Body) {
+					be, ok := ast.Unparen(g.E).(*ast.BinaryExpr)
+					if !ok || !fieldSel(info, be.X, "internal/config.PrometheusConfig", field) {
+						continue
+					}
+					k, isC := constInt(info, be.Y)
+					if !isC {
+						continue
+					}
+					switch {
+					case g.Truth && be.Op == token.LEQ && k == 0, g.Truth && be.Op == token.LSS && k == 1,
+						!g.Truth && be.Op == token.GTR && k == 0, !g.Truth && be.Op == token.GEQ && k == 1:
+						return true
+					}
+				}
+				return false
+			}
+			inspectNoLit(fi.Decl.Body, func(nd ast.Node) bool {
+				switch x := nd.(type) {
+				case *ast.AssignStmt:
+					for i, l := range x.Lhs {
+						if fieldSel(info, l, "internal/config.PrometheusConfig", field) && i < len(x.Rhs) {
+							if k, isC := constInt(info, x.Rhs[i]); isC && k > 0 && nonPositive(x) {
+								covered = "defaulted in " + fi.Obj.Name()
+							}
+						}
+					}
+				case *ast.ReturnStmt:
+					if fi == val && len(x.Results) == 1 && !isNilIdent(info, x.Results[0]) && nonPositive(x) {
+						covered = "rejected in validate"
+					}
+				}
+				return true
+			})
+		}
+		c.Check(covered != "", R, "PrometheusConfig."+field+" is positive after loading", ad.Decl.Pos(), covered,
+			"nothing replaces or rejects a "+field+" that is zero or negative (only the zero value, or nothing, is handled): prometheus { "+strings.ToLower(field[:1])+field[1:]+" = -1 } is accepted by Load(), and starting the workers later panics (channel of negative size / rate limiter dividing by zero)")
+	}
 }
